@@ -14,7 +14,7 @@ CLAIMS = {
 CLAIMS["C20"] = dict(
     engine="K",
     technique="bounded model checking (Kani/CBMC) of the real parser/serializer: totality, round trip, prefix lemma, allocation obligation",
-    text="Solver-decided, bounded: (1) totality of parse_frame per type byte over arbitrary bytes (6-7 bytes, every length): frame with 0<consumed<=len, need-more, or error, no panic; (2) round trip parse(serialize(f))==(f,len) for every leaf frame family with symbolic payload bytes (line types without CR/LF, bulk with any bytes, nil forms, integer literals); (3) the prefix lemma of RespParser::parse for every split point, from which chunk independence follows by induction over chunks; (4) aggregate parsers never reserve more elements than bytes received.",
+    text="Solver-decided, bounded: (1) totality of parse_frame per type byte over arbitrary bytes (6-7 bytes, every length): frame with 0<consumed<=len, need-more, or error, no panic; (2) round trip parse(serialize(f))==(f,len) for every leaf frame family with symbolic payload bytes (line types without CR/LF, bulk with any bytes, nil forms, integer literals); (3) the prefix lemma of RespParser::parse for every split point (incl. the CR|LF split of a bulk trailer with a concrete declared length), from which chunk independence follows by induction over chunks; (4) aggregate parsers never reserve more elements than bytes received.",
     note=TB + " Outside: doubles (dec2flt/Ryu not tractable), symbolic integers through std Display/FromStr (literal table instead), frames nested inside aggregates for round trip/chunking (drop-glue recursion of RespFrame unrolls beyond memory), payloads > 3 bytes.")
 
 TM = ("Trusted: rustc's MIR dump (nightly, -Zunpretty=mir) as the representation of the code; the MIR parser (self-check: every block of every function in the dump must parse); "
@@ -78,20 +78,20 @@ CLAIMS["C06"] = dict(
 CLAIMS["C08"] = dict(
     engine="K",
     technique="bounded model checking (Kani/CBMC): per mutating engine operation, changed => modification counter bumped; other keys never reported",
-    text="Solver-decided, bounded: every one-step engine harness of C01/C02/C03 registers WATCH baselines with the real register_watch on the key under test and on another key of the same shard, and asserts after the operation that an observable change is reported by was_modified_since and that the other key is never reported; dedicated harnesses for EXPIRE, PERSIST, RENAME (both names), FLUSHDB (and not the other database) and expiry by the sweeper step.",
+    text="Solver-decided, bounded: every one-step engine harness of C01/C02/C03 registers WATCH baselines with the real register_watch on the key under test and on another key of the same shard, and asserts after the operation that an observable change is reported by was_modified_since and that the other key is never reported; dedicated harnesses for EXPIRE, PERSIST, RENAME (both names), FLUSHDB (and not the other database), expiry by the sweeper step, and two connections watching one key of which one UNWATCHes (the other still sees exactly the modifications that happened).",
     note=TB + " Outside: EXEC's re-check loop in Server::handle_exec (structure only, C07), unregister on EXEC/DISCARD (leak, not a violation), WATCH baseline taken in one database and checked in another after SELECT, counters near u64::MAX.")
 
 CLAIMS["C09"] = dict(
     engine="K",
     technique="bounded model checking (Kani/CBMC) of the real RDB writer and reader: codec identities for all lengths < 2^32, per-type record round trips",
-    text="Solver-decided, bounded: read_length(write_length(n)) == n with exact consumption for ALL n <= 2^32-1 (covers the 63/64/16383/16384/65536 boundaries); string codec for 0-3 symbolic bytes; string records round-trip through a real engine; list/set/hash records make the reader issue exactly the engine calls that rebuild the saved value (recorded calls), then EXPIRE iff a TTL was saved; saved deadline = now + ttl in ms and restored TTL = deadline - load time for symbolic wall clocks; a key whose deadline passed during downtime is not restored as a persistent key.",
+    text="Solver-decided, bounded: read_length(write_length(n)) == n with exact consumption for ALL n <= 2^32-1 (covers the 63/64/16383/16384/65536 boundaries); string codec for 0-3 symbolic bytes, and for 2/3/5 bytes with the loader's chunk size shrunk from 64 KiB to 2 in the scratch copy (the multi-chunk path of long strings); string records round-trip through a real engine; list/set/hash records make the reader issue exactly the engine calls that rebuild the saved value (recorded calls), then EXPIRE iff a TTL was saved; saved deadline = now + ttl in ms and restored TTL = deadline - load time for symbolic wall clocks; a key whose deadline passed during downtime is not restored as a persistent key.",
     note=TB + " Outside: sorted-set and stream records, files with more than one key (composition argued from self-delimiting records), header/db selector (format! of the version), lengths >= 2^32 and the list-marker collision (known findings), file-system effects.")
 
 CLAIMS["C10"] = dict(
-    engine="K",
-    technique="bounded model checking (Kani/CBMC): loader totality over arbitrary bytes and every prefix, allocation obligation, writer fault propagation with a symbolic failure point",
-    text="Solver-decided, bounded: read_string and the string record loader over arbitrary bytes and every prefix return Ok (consuming exactly the bytes) or Err, never panic; unknown type bytes are errors; no allocation is sized by a length field larger than the bytes present; for list, hash, string+TTL records and the frame (db selector, resize hint, EOF, checksum) a write failing at ANY point (symbolic) propagates as Err with no further write attempted.",
-    note=TB + " Reduced: the schedule-quantified half (a snapshot taken while clients write is per-key consistent; SAVE and BGSAVE sharing a temp path) is concurrency and is NOT claimed; container-type loader totality and the load_into dispatch loop did not fit (out of memory); RdbEngine::save's rename-after-success ordering is not decided.")
+    engine="K+M",
+    technique="bounded model checking (Kani/CBMC): loader totality over arbitrary bytes and every prefix, allocation obligation, writer fault propagation with a symbolic failure point; MIR -> SMT query over every reservation sized by a length field of the dump",
+    text="Solver-decided, bounded: read_string and the string record loader over arbitrary bytes and every prefix return Ok (consuming exactly the bytes) or Err, never panic; unknown type bytes are errors; no allocation is sized by a length field larger than the bytes present (K: read_string; M: no with_capacity / reserve / resize / vec![x; n] anywhere in the loader can be reached with a size above 2^40 when the results of read_length / read_u32 / read_u64 are arbitrary); for list, hash, string+TTL records and the frame (db selector, resize hint, EOF, checksum) a write failing at ANY point (symbolic) propagates as Err with no further write attempted.",
+    note=TB + TM + " Reduced: the schedule-quantified half (a snapshot taken while clients write is per-key consistent; SAVE and BGSAVE sharing a temp path) is concurrency and is NOT claimed; container-type loader totality and the load_into dispatch loop did not fit (out of memory); RdbEngine::save's rename-after-success ordering is not decided.")
 
 CLAIMS["C13"] = dict(
     engine="K+M",
